@@ -47,7 +47,19 @@ fn gen_wellformed_spec(ctx: &mut Ctx, creds: &Creds, want_fp: bool, want_integri
             the_spec = Some(spec);
             r
         };
-        let Verdict::Accept(view) = refcodec::decode(&b) else { continue };
+        let view = match refcodec::decode(&b) {
+            Verdict::Accept(view) => view,
+            Verdict::Reject(causes) => {
+                if !foreign {
+                    // the library's own builder produced something the reference decoder refuses
+                    ctx.st.inc("probe.library_built_message_refused_by_reference");
+                    if causes.iter().any(|c| matches!(c, refcodec::Cause::FpMismatch | refcodec::Cause::FpMalformed)) {
+                        ctx.builder_fp_wrong = Some((the_spec.as_ref().map(|s| s.desc()).unwrap_or_default(), b.clone()));
+                    }
+                }
+                continue;
+            }
+        };
         let has_fp = view.all.last().map(|a| a.ty) == Some(FP);
         let has_int = view.first_integrity.is_some();
         if (want_fp && !has_fp) || (want_integrity && !has_int) {
@@ -273,6 +285,13 @@ pub fn scenario_crc(ctx: &mut Ctx) -> ScResult {
     let creds = gen_creds(ctx.ch);
     let (m, desc, spec) = gen_wellformed_spec(ctx, &creds, true, false, false);
     let by_lib = spec.is_some();
+    // (i'') a message the library's builder sealed with a FINGERPRINT that is not the CRC of its own
+    // bytes never gets as far as the corruption loop (the reference refuses it): report it here
+    if let Some((d, b)) = ctx.builder_fp_wrong.take() {
+        let v = Violation::new("C09", "builder_value_is_rfc_crc", "library_builder", format!("the builder's FINGERPRINT is not the CRC of the message it ends ({d})"));
+        ev!(ctx, "  !! {} {}", v.message, hex(&b));
+        return Err(v);
+    }
     ev!(ctx, "message {}B: {}", m.len(), desc);
     let n = m.len();
     // (i') every way the builder emits the message carries the RFC CRC of the emitted bytes:
@@ -371,6 +390,29 @@ pub fn scenario_crc(ctx: &mut Ctx) -> ScResult {
         }
     }
     ctx.st.add("fault.burst", bursts);
+    // structured 32-bit error patterns (each is a burst of at most 32 bits) on the CRC value and, for
+    // short messages, on every aligned word: the XOR constant itself (a receiver that also accepts
+    // the plain CRC), all-ones (an inverted CRC), the difference to a byte-swapped value, the
+    // difference to the CRC computed without the length adjustment / without the final XOR
+    {
+        let crc_now = u32::from_be_bytes([m[n - 4], m[n - 3], m[n - 2], m[n - 1]]);
+        let plain_no_adjust = refcodec::crc32(&m[..n - 8]) ^ refcodec::FP_XOR;
+        let mut words: Vec<u32> = vec![refcodec::FP_XOR, u32::MAX, crc_now ^ crc_now.swap_bytes(), crc_now ^ plain_no_adjust, crc_now ^ refcodec::crc32(&m[..n - 8]), crc_now ^ !crc_now.rotate_left(8), 0x5354_0000, 0x0000_554e];
+        words.retain(|w| *w != 0);
+        let mut structured = 0u64;
+        let offs: Vec<usize> = if n <= 96 { (0..=n - 4).collect() } else { vec![n - 4, n - 8, 0, 4, 8, 16, 20] };
+        for off in offs {
+            for w in &words {
+                let mut x = m.clone();
+                for (i, b) in w.to_be_bytes().iter().enumerate() {
+                    x[off + i] ^= b;
+                }
+                crc_judge(ctx, &m, &x, if off == n - 4 { "structured_pattern_on_crc_value" } else { "structured_pattern" })?;
+                structured += 1;
+            }
+        }
+        ctx.st.add("fault.structured_word_pattern", structured);
+    }
     // byte substitutions: all for short messages, sampled otherwise
     let mut subs = 0u64;
     if n <= if thorough { 64 } else { 32 } {
@@ -413,7 +455,8 @@ fn alg_type(a: IntegrityAlgorithm) -> u16 {
 
 pub fn scenario_tamper(ctx: &mut Ctx) -> ScResult {
     let creds = gen_creds(ctx.ch);
-    let (m, desc, by_lib) = gen_wellformed(ctx, &creds, false, true, false);
+    let (m, desc, spec) = gen_wellformed_spec(ctx, &creds, false, true, false);
+    let by_lib = spec.is_some();
     ev!(ctx, "message {}B key={}: {}", m.len(), creds.short_desc(), desc);
     if m.len() > 4000 {
         ctx.st.inc("probe.large_sealed_message");
@@ -449,6 +492,41 @@ pub fn scenario_tamper(ctx: &mut Ctx) -> ScResult {
         }
     }
     let checked_idx = checked.unwrap().0;
+    // (a') a sender does not always call build(): every way the builder emits the sealed message
+    // (write_into() a recycled, non-zero transmit buffer of exact or larger size, before and after
+    // into_owned()) must give the receiver a message that validates under K
+    if let Some(spec) = &spec {
+        let n = m.len();
+        let extra = ctx.ch.below(3) as usize * 4;
+        let fill = *ctx.ch.pick(&[0xA5u8, 0xff, 0x01]);
+        let outs: Vec<(&'static str, Vec<u8>)> = g("C04", "MessageBuilder::write_into", || {
+            spec.with_builder(|b| {
+                let mut v = vec![];
+                let mut d = vec![fill; n + extra];
+                if let Ok(k) = b.write_into(&mut d) {
+                    d.truncate(k);
+                    v.push(("write_into", d));
+                }
+                let o = b.clone().into_owned();
+                let mut d2 = vec![fill; n + extra];
+                if let Ok(k) = o.write_into(&mut d2) {
+                    d2.truncate(k);
+                    v.push(("into_owned+write_into", d2));
+                }
+                v.push(("into_owned+build", o.build()));
+                v
+            })
+        })?;
+        for (how, out) in outs {
+            ctx.st.cases += 1;
+            let r = g("C04", "Message::validate_integrity", || Message::from_bytes(&out).map_err(|e| format!("parse: {e:?}")).and_then(|msg| msg.validate_integrity(&lc).map_err(|e| format!("{e:?}"))))?;
+            if let Err(e) = r {
+                let v = Violation::new("C04", "sealed_message_validates", how, format!("the sealed message emitted through {how} (destination pre-filled with {fill:#04x}) does not validate under its own key: {e}"));
+                ev!(ctx, "  !! {} {}", v.message, hex(&out));
+                return Err(v);
+            }
+        }
+    }
     // tampering range: byte 0 up to the end of the last *exposed* integrity attribute (for the
     // builder's own [MI, MI-SHA256] both are exposed, so damage to either must be noticed; an
     // integrity attribute hidden behind the first one is outside what is claimed)
@@ -687,7 +765,7 @@ fn judge_exposure(ctx: &mut Ctx, x: &[u8], lc: &MessageIntegrityCredentials) -> 
     match (&parsed, &rf) {
         (Ok(msg), Verdict::Accept(view)) => {
             ctx.st.inc("verdict.accepted");
-            if let Err(v) = g("C10", "compare_view", || compare_view(x, msg, view))? {
+            if let Err(v) = g("C10", "compare_view", || compare_view(x, msg, view, "C10"))? {
                 ev!(ctx, "  !! {} [{}] {}", v.clause, v.site, v.message);
                 return Err(v);
             }
